@@ -166,11 +166,10 @@ theorem normWaveform_idem (w wv : List WEntry) (c : Option UInt64) (r : Option F
         cases ht : integerPart rate with
         | none => simp [ht] at h
         | some t =>
-          simp only [ht, Option.some.injEq] at h
+          simp only [ht] at h
           by_cases h0 : n.toNat = 0 ∨ Pure.Waveform.qn t.natAbs = 0
-          · simp [Pure.Waveform.ovSize, h0, overviewOf] at h
-            subst h; simp [normWaveform]
-          · simp only [Pure.Waveform.ovSize, h0, if_false] at h
+          · simp [Pure.Waveform.ovSize, h0] at h
+          · simp only [Pure.Waveform.ovSize, h0, if_false, (by decide : ¬ (1024 : Nat) = 0), Option.some.injEq] at h
             have hn : ¬ n = 0 := fun hh => h0 (Or.inl (by subst hh; rfl))
             have hr : ¬ (rate = 0 ∨ rate = F64.negZero) := by
               rintro (hh | hh)
@@ -181,7 +180,7 @@ theorem normWaveform_idem (w wv : List WEntry) (c : Option UInt64) (r : Option F
             by_cases he : overviewOf w 1024 = []
             · simp [he]
             · simp only [he, if_false, normCount, hn, normZeroAbsent, hr, ht, Pure.Waveform.ovSize, h0,
-                overviewOf_idem w hw]
+                overviewOf_idem w hw, (by decide : ¬ (1024 : Nat) = 0)]
 
 end Spec
 end TracksV2
